@@ -1,0 +1,85 @@
+//go:build verif
+
+// Contracts for the verif build tag: comment-only, read by /verif/engine (govc).
+package dnssec
+
+//@ # ---- C14: RSA key parsing and bounds; never panics on attacker-supplied key or signature octets
+//@ func fromBase64
+//@   trusted
+//@   modifies nothing
+//@
+//@ # RFC 3110: exponent length in 1 octet, or 0 followed by 2 octets; the exponent exceeds 2^31-1 iff it is longer
+//@ # than 4 octets or its big-endian value does
+//@ func rsaExponentExceedsStdlib
+//@   modifies nothing
+//@   loop 1 invariant explen <= 4 && rangeidx <= explen && (rangeidx == 0 ==> e == 0) && (rangeidx == 1 ==> e < 256) && (rangeidx == 2 ==> e < 65536) && (rangeidx == 3 ==> e < 16777216) && (rangeidx == 4 ==> e < 4294967296)
+//@
+//@ # (n, e, true) only when both fields are present and neither starts with a zero octet
+//@ func parseRSAPublicKey
+//@   assert at call (*math/big.Int).SetBytes#1: len(arg1) > 0 && arg1[0] != 0 && region(arg1) == region(keybuf) && offset(arg1) == offset(keybuf) + off && len(arg1) == explen
+//@   assert at call (*math/big.Int).SetBytes#2: len(arg1) > 0 && arg1[0] != 0 && region(arg1) == region(keybuf) && offset(arg1) == offset(keybuf) + off + explen && offset(arg1) + len(arg1) == offset(keybuf) + len(keybuf)
+//@
+//@ # a key is usable only with a 1024..4096-BIT modulus and an odd exponent e, 3 <= e < n, of at most 64 bits
+//@ func usableRSAKey
+//@   requires n != nil && e != nil
+//@   modifies nothing
+//@   ensures result ==> 1024 <= bigBitLen(n) && bigBitLen(n) <= 4096 && bigBit0(e) == 1 && bigCmp(e, n) < 0 && bigBitLen(e) <= 64
+//@   assert at call (*math/big.Int).Cmp#1: bigIsSmall(arg1, 3)
+//@
+//@ # PKCS#1 v1.5: the recovered block, LEFT-PADDED with zeros to the modulus size, must equal
+//@ # 00 01 FF..FF 00 || DigestInfo prefix || digest, with at least 8 FF octets
+//@ func rsaVerifyPKCS1v15
+//@   requires n != nil && e != nil
+//@   assert at call crypto/subtle.ConstantTimeCompare#1: len(arg0) == size && len(arg1) == size && size >= len(prefix) + len(hashed) + 11
+//@   assert at call crypto/subtle.ConstantTimeCompare#1: arg1[0] == 0
+//@   assert at call crypto/subtle.ConstantTimeCompare#1: arg1[1] == 1
+//@   assert at call crypto/subtle.ConstantTimeCompare#1: arg1[size - len(prefix) - len(hashed) - 1] == 0
+//@   assert at call crypto/subtle.ConstantTimeCompare#1: forall i int :: {arg1[i]} 2 <= i && i < size - len(prefix) - len(hashed) - 1 ==> arg1[i] == 255
+//@   assert at call crypto/subtle.ConstantTimeCompare#1: forall j int :: {prefix[j]} 0 <= j && j < len(prefix) ==> arg1[size - len(prefix) - len(hashed) + j] == prefix[j]
+//@   assert at call crypto/subtle.ConstantTimeCompare#1: forall j int :: {hashed[j]} 0 <= j && j < len(hashed) ==> arg1[size - len(hashed) + j] == hashed[j]
+//@   assert at call crypto/subtle.ConstantTimeCompare#1: len(em) <= size && (forall i int :: {arg0[i]} 0 <= i && i < size - len(em) ==> arg0[i] == 0) && (forall j int :: {em[j]} 0 <= j && j < len(em) ==> arg0[size - len(em) + j] == em[j])
+//@   loop 1 invariant i <= size - tLen - 1
+//@   loop 1 invariant 2 <= i && forall k int :: {expected[k]} 2 <= k && k < i && k < size - tLen - 1 ==> expected[k] == 255
+//@   loop 1 invariant expected[0] == 0 && expected[1] == 1 && forall k int :: {expected[k]} i <= k && k < size && k >= 2 ==> expected[k] == 0
+//@   loop 1 invariant len(expected) == size && region(expected) != region(prefix) && region(expected) != region(hashed) && region(expected) != region(em)
+//@
+//@ func wireRdataOffset
+//@   modifies nothing
+//@   ensures result1 ==> 10 <= result0 && result0 <= len(wire)
+//@   loop 1 invariant 0 <= off
+//@
+//@ # ---- C14: the in-house key tag is the RFC 4034 Appendix B checksum of flags, protocol, algorithm and the decoded
+//@ # key material: a 32-bit sum of 16-bit big-endian words, the carry folded in ONCE at the end
+//@ # matAt(pub, k) / matLen(pub): the k-th octet / the length of the base64-decoded key material
+//@ uninterp matAt(pub string, k int) uint8
+//@ uninterp matLen(pub string) int
+//@ recspec wsum(pub string, m int) int := ite(m <= 0, 0, wsum(pub, m - 1) + ite(emod(m - 1, 2) == 0, int(matAt(pub, m - 1)) * 256, int(matAt(pub, m - 1))))
+//@ spec ktHdr(key *dns.DNSKEY) int := int(key.Flags) + int(key.Protocol) * 256 + int(key.Algorithm)
+//@ func oversizedKeyMaterial
+//@   trusted
+//@   modifies nothing
+//@
+//@ # dcount(L): octets decoded from the first L base64 characters (L a multiple of 4)
+//@ recspec dcount(L int) int := (L / 4) * 3
+//@ lemma dcount_linear (L int): {dcount(L)} L >= 0 && emod(L, 4) == 0 ==> 4 * dcount(L) == 3 * L
+//@ lemma wsum_bound_base (pub string, m int): m <= 0 ==> 0 <= wsum(pub, m) && wsum(pub, m) <= 0
+//@ lemma wsum_bound_step (pub string, m int): m >= 0 && 0 <= wsum(pub, m) && wsum(pub, m) <= 65280 * m ==> 0 <= wsum(pub, m + 1) && wsum(pub, m + 1) <= 65280 * (m + 1)
+//@ axiom wsum_bound (pub string, m int): {wsum(pub, m)} m >= 0 ==> 0 <= wsum(pub, m) && wsum(pub, m) <= 65280 * m
+//@
+//@ func KeyTag
+//@   requires key != nil ==> len(key.PublicKey) <= 5460
+//@   uses dcount_linear wsum_bound
+//@   note the functional claim covers key material up to 5460 base64 characters; larger keys fall back to the library or are refused
+//@   # base64 decodes 4-character groups independently, so decoding a 256-character chunk yields the corresponding
+//@   # 192 octets of the whole key material; n characters decode to at most 3n/4 octets (assumed of encoding/base64)
+//@   assume at after call (*encoding/base64.Encoding).Decode#1: 0 <= result0 && result0 <= 192 && 4 * result0 <= 3 * n && (result1 == nil ==> forall i int :: {out[i]} 0 <= i && i < result0 ==> out[i] == matAt(key.PublicKey, dcount(len(key.PublicKey) - len(encoded) - n) + i))
+//@   assume at after call (*encoding/base64.Encoding).Decode#1: result1 == nil && len(encoded) == 0 ==> dcount(len(key.PublicKey) - n) + result0 == matLen(key.PublicKey)
+//@   loop 1 invariant key != nil && 0 <= len(encoded) && len(encoded) <= len(key.PublicKey) && (len(encoded) > 0 ==> emod(len(key.PublicKey) - len(encoded), 256) == 0)
+//@   loop 1 invariant len(encoded) > 0 || len(key.PublicKey) == 0 ==> sum == ktHdr(key) + wsum(key.PublicKey, dcount(len(key.PublicKey) - len(encoded)))
+//@   loop 1 invariant len(encoded) == 0 && len(key.PublicKey) > 0 ==> sum == ktHdr(key) + wsum(key.PublicKey, matLen(key.PublicKey)) && 0 <= matLen(key.PublicKey) && matLen(key.PublicKey) <= 4300
+//@   loop 2 invariant key != nil && 0 <= i && i < decoded && decoded <= 192 && 4 * decoded <= 3 * n && emod(len(key.PublicKey) - len(encoded) - n, 256) == 0 && 0 <= n && n <= 256 && 0 <= len(encoded) && len(encoded) + n <= len(key.PublicKey)
+//@   loop 2 invariant sum == ktHdr(key) + wsum(key.PublicKey, dcount(len(key.PublicKey) - len(encoded) - n) + i)
+//@   loop 2 invariant forall k int :: {out[k]} 0 <= k && k < decoded ==> out[k] == matAt(key.PublicKey, dcount(len(key.PublicKey) - len(encoded) - n) + k)
+//@   loop 2 invariant len(encoded) == 0 ==> dcount(len(key.PublicKey) - n) + decoded == matLen(key.PublicKey)
+//@   loop 2 invariant len(encoded) > 0 ==> decoded == 192 && n == 256
+//@   assert at return#6: len(key.PublicKey) > 0 ==> int(result) == (ktHdr(key) + wsum(key.PublicKey, matLen(key.PublicKey)) + ((ktHdr(key) + wsum(key.PublicKey, matLen(key.PublicKey))) / 65536) % 65536) % 65536
